@@ -1,6 +1,7 @@
 import SJ.Proofs.FloatLiteral
 import SJ.Proofs.FloatUlp
 import SJ.Proofs.FloatZero
+import SJ.Proofs.FloatLift
 /-!
 # C08 — default float parsing: exact for short literals, within a few ulp otherwise
 
@@ -125,23 +126,48 @@ example : f32OfLiteral exLit = (floatOfLiteral exLit).map F64.toF32 :=
     (by intro n h; rw [show partsOfLiteral exLit = .parts false 12345678 6 by decide +kernel] at h; cases h)
 
 
-/-! ## Overflow direction, underflow, accuracy — at the `f64_from_parts(positive, significand, exponent)`
-call the digit collection ends in (`significand < 2^64`, the exact value is `significand · 10^exponent`) -/
+/-! ## Overflow direction, underflow, accuracy
 
-/-- **C08, overflow direction (partial: stated at `f64_from_parts`).**
-    Rejected (`NumberOutOfRange`) only if `exponent ≥ 0` and the exact value is at least
-    `2^1024 − 2^970 − 2^972`, i.e. within 2 ulp (`ulp = 2^971`) of the rounding threshold; and every exact
-    value of at least `2^1024 + 2^972` (2 ulp above `2^1024`) is rejected.
-    NOT provable, because false on the pinned code: "every value ≥ 2^1024 is rejected" —
-    `179769313486231591e291 > 2^1024` is accepted as `f64::MAX` (see `c08_accepts_above_2pow1024`).
-    Missing for the literal-level statement: the lift through digit dropping after `u64` overflow
-    (the dropped tail only lowers the value, by < 2^-60 relative) and the `parse_exponent_overflow` path
-    (exponent digits beyond `i32`). -/
-theorem c08_overflow_direction_partial (positive : Bool) (s : Nat) (e : Int) (hs : s < 2 ^ 64) :
+Each clause is stated twice: at the `f64_from_parts(positive, significand, exponent)` call the digit
+collection ends in (`…_parts`: `significand < 2^64`, every `i32` exponent, value `significand · 10^exponent`),
+and for every grammatical literal against its exact value `NumLit.exact` (digits beyond `u64` are dropped by
+the parser: the parsed value is never above the exact one and misses it by less than `10^-18` relative,
+`Proofs.FloatDefault.collect_spec`). The literal-level statements carry one side condition,
+`l.digits.length < 2^30` (integer plus fraction digits): it keeps the `i32` exponent bookkeeping of the
+parser meaningful, exactly as in `c08_exact_short`. -/
+
+/-- **C08, overflow direction at `f64_from_parts`** (every exponent): rejected only if `exponent ≥ 0` and
+    the value is at least `2^1024 − 2^970 − 2^972` (within 2 ulp, `ulp = 2^971`, of the rounding threshold);
+    every value of at least `2^1024 + 2^972` is rejected. -/
+theorem c08_overflow_direction_parts (positive : Bool) (s : Nat) (e : Int) (hs : s < 2 ^ 64) :
     (f64FromParts positive s e = none →
         0 ≤ e ∧ 2 ^ 1024 - 2 ^ 970 - 2 ^ 972 ≤ s * 10 ^ e.natAbs) ∧
     (0 ≤ e → 2 ^ 1024 + 2 ^ 972 ≤ s * 10 ^ e.natAbs → f64FromParts positive s e = none) :=
   f64FromParts_overflow_direction positive s e hs
+
+/-- **C08, "rejected only near or beyond the overflow threshold" — every literal.** A grammatical literal
+    is rejected (`NumberOutOfRange`) only if its exact value is at least `2^1024 − 2^970 − 2^972`, i.e.
+    within 2 ulp of the point `2^1024 − 2^970` from which round-to-nearest overflows. This covers digit
+    dropping (which only lowers the parsed value) and the `parse_exponent_overflow` path (exponent digits
+    beyond `i32`: rejected only with a non-zero significand and a positive exponent, value `≥ 10^(2^30)`). -/
+theorem c08_rejected_only_near_threshold (l : NumLit) (hwf : l.WF = true)
+    (hlen : l.digits.length < 2 ^ 30) (h : floatOfLiteral l = none) :
+    (2 ^ 1024 - 2 ^ 970 - 2 ^ 972) * l.exact.2 ≤ l.exact.1 :=
+  (SJ.Proofs.FloatQ.floatOfLiteral_overflow l hwf hlen).1 h
+
+/-- **C08, overflow direction — every literal (partial only where the property is false of the code).**
+    Rejected ⇒ exact value `≥ 2^1024 − 2^970 − 2^972`; exact value `≥ 2^1024 + 2^972 + 2^965` ⇒ rejected
+    (`2^972` = 2 ulp from the two operand roundings, `2^965 > 2^1024·10^-18` for the dropped digits).
+    NOT provable, because false on the pinned code: the property's "(and always if beyond it)" read as
+    "every value ≥ 2^1024 is rejected" — `179769313486231591e291 > 2^1024` is accepted as `f64::MAX`
+    (`c08_accepts_above_2pow1024`, finding C08-F1). Between `2^1024 − 2^970 − 2^972` and
+    `2^1024 + 2^972 + 2^965` both outcomes occur; an accepted result there is still within 5 ulp
+    (`c08_within_5ulp`). Nothing else is missing. -/
+theorem c08_overflow_direction_partial (l : NumLit) (hwf : l.WF = true)
+    (hlen : l.digits.length < 2 ^ 30) :
+    (floatOfLiteral l = none → (2 ^ 1024 - 2 ^ 970 - 2 ^ 972) * l.exact.2 ≤ l.exact.1) ∧
+    ((2 ^ 1024 + 2 ^ 972 + 2 ^ 965) * l.exact.2 ≤ l.exact.1 → floatOfLiteral l = none) :=
+  SJ.Proofs.FloatQ.floatOfLiteral_overflow l hwf hlen
 
 /-- the pinned code accepts a literal above `2^1024` (kernel-evaluated on the exact-IEEE model; the
     correspondence run confirms the same bits on the real crate) -/
@@ -152,23 +178,40 @@ theorem c08_accepts_above_2pow1024 :
 example : f64FromParts true 17976931348623159 292 = none := by decide +kernel
 example : f64FromParts true 1 309 = none := by decide +kernel
 
+/-- `1797693134862317000000000e284` (25 digits, 5 of them dropped): above `2^1024 + 2^972 + 2^965`, rejected -/
+def exBig : NumLit := ⟨false, [0x31, 0x37, 0x39, 0x37, 0x36, 0x39, 0x33, 0x31, 0x33, 0x34, 0x38, 0x36, 0x32, 0x33,
+  0x31, 0x37, 0x30, 0x30, 0x30, 0x30, 0x30, 0x30, 0x30, 0x30, 0x30], [], false, [0x32, 0x38, 0x34]⟩
+example : exBig.WF = true ∧ exBig.digits.length < 2 ^ 30 := by decide
+example : (2 ^ 1024 + 2 ^ 972 + 2 ^ 965) * exBig.exact.2 ≤ exBig.exact.1 := by decide +kernel
+example : partsOfLiteral exBig = .parts true 17976931348623170000 289 ∧ floatOfLiteral exBig = none := by
+  decide +kernel
+/-- `1e2147483648`: the exponent digits overflow `i32` (`parse_exponent_overflow`), rejected -/
+example : floatOfLiteral ⟨false, [0x31], [], false,
+    [0x32, 0x31, 0x34, 0x37, 0x34, 0x38, 0x33, 0x36, 0x34, 0x38]⟩ = none := by decide +kernel
+
 /-- **C08, zero significand.** `±0` whatever the exponent (`0e400`, `-0.000e-999`). -/
 theorem c08_zero_significand (positive : Bool) (e : Int) :
     f64FromParts positive 0 e = some (F64.zero (!positive)) :=
   f64FromParts_zero positive e
 
-/-- **C08, underflow (partial: stated at `f64_from_parts`).** An exact value `significand · 10^exponent`
-    of at most `2^-1076` — a quarter of the least subnormal `2^-1074`, i.e. safely "below the subnormal
-    range" — is deserialised to `±0`, for every `u64` significand and every exponent: two `f /= 1e308`
-    rounds flush everything for `exponent < -616`, and for `-616 ≤ exponent ≤ -309` the rounding errors of
-    `significand as f64`, `/ 1e308` (possibly subnormal) and the table division keep the last quotient
-    at or below half the least subnormal. (Between `2^-1076` and `2^-1075` the result may legitimately be
-    `±0` or the least subnormal: 1 ulp.)
-    Missing: the lift to literals whose digits beyond `u64` are dropped (dropping only lowers the
-    value); the exponent-overflow path (`1e-99999999999`) returns `±0` by construction. -/
-theorem c08_underflow_zero_partial (positive : Bool) (s : Nat) (e : Int) (hs : s < 2 ^ 64) (he : e < 0)
+/-- **C08, underflow at `f64_from_parts`.** A value `significand · 10^exponent` of at most `2^-1076` — a
+    quarter of the least subnormal `2^-1074`, i.e. safely "below the subnormal range" — gives `±0`, for
+    every `u64` significand and every exponent: two `f /= 1e308` rounds flush everything for
+    `exponent < -616`, and for `-616 ≤ exponent ≤ -309` the rounding errors of `significand as f64`,
+    `/ 1e308` (possibly subnormal) and the table division keep the last quotient at or below half the
+    least subnormal. -/
+theorem c08_underflow_zero_parts (positive : Bool) (s : Nat) (e : Int) (hs : s < 2 ^ 64) (he : e < 0)
     (hx : s * 2 ^ 1076 ≤ 10 ^ e.natAbs) : f64FromParts positive s e = some (F64.zero (!positive)) :=
   f64FromParts_underflow positive s e hs he hx
+
+/-- **C08, "values below the subnormal range give ±0" — every literal.** A grammatical literal whose exact
+    value is at most `2^-1076` is deserialised to `±0` with the literal's sign: dropped digits only lower
+    the parsed value, and a negative exponent beyond `i32` (`1e-99999999999`) returns `±0` by construction.
+    (Between `2^-1076` and `2^-1075` the result may be `±0` or the least subnormal — both within 1 ulp;
+    from `2^-1075` on the correctly rounded value is no longer zero, and `c08_within_5ulp` applies.) -/
+theorem c08_underflow_zero (l : NumLit) (hwf : l.WF = true) (hlen : l.digits.length < 2 ^ 30)
+    (hx : l.exact.1 * 2 ^ 1076 ≤ l.exact.2) : floatOfLiteral l = some (F64.zero l.neg) :=
+  SJ.Proofs.FloatQ.floatOfLiteral_underflow l hwf hlen hx
 
 /-- `6e-325 < 2^-1076 ≈ 6.18e-325` -/
 example : 6 * 2 ^ 1076 ≤ 10 ^ (-325 : Int).natAbs := by decide +kernel
@@ -176,37 +219,60 @@ example : f64FromParts true 6 (-325) = some 0 := by decide +kernel
 example : f64FromParts false 18446744073709551615 (-617) = some 0x8000000000000000 := by decide +kernel
 example (z p : Bool) : parseExponentOverflow p z false = some (F64.zero (!p)) := by
   cases z <;> cases p <;> rfl
+/-- `-600000000000000000000001e-348` (24 digits, 5 dropped; `≈ -6e-325`): hypotheses met, result `-0.0` -/
+def exTiny : NumLit := ⟨true, [0x36, 0x30, 0x30, 0x30, 0x30, 0x30, 0x30, 0x30, 0x30, 0x30, 0x30, 0x30, 0x30, 0x30,
+  0x30, 0x30, 0x30, 0x30, 0x30, 0x30, 0x30, 0x30, 0x30, 0x31], [], true, [0x33, 0x34, 0x38]⟩
+example : exTiny.WF = true ∧ exTiny.digits.length < 2 ^ 30 := by decide
+example : exTiny.exact.1 * 2 ^ 1076 ≤ exTiny.exact.2 := by decide +kernel
+example : partsOfLiteral exTiny = .parts false 6000000000000000000 (-343) ∧
+    floatOfLiteral exTiny = some 0x8000000000000000 := by decide +kernel
+/-- `1e-2147483648` -/
+example : floatOfLiteral ⟨false, [0x31], [], true,
+    [0x32, 0x31, 0x34, 0x37, 0x34, 0x38, 0x33, 0x36, 0x34, 0x38]⟩ = some 0 := by decide +kernel
 
-/-- **C08, 5 ulp (partial).** For a table exponent (`|exponent| ≤ 308`) and — for divisions — an exact
-    value of at least `2^-1021` (so that the quotient is a normal number), an accepted result is within
-    5 ulp of the exact value `significand · 10^exponent` (the proof gives `4·2^-53` relative, i.e. < 4 ulp):
-    `significand as f64`, the table entry and the one operation each contribute `2^-53`.
-    Missing: exponents below `-308` (the `f /= 1e308` stepping, up to three more roundings), subnormal
-    results (absolute instead of relative error), and the lift to literals whose digits beyond `u64` are
-    dropped (< `2^-60` relative). Those cases are covered by the exact-rational oracle sweep only. -/
-theorem c08_within_5ulp_partial (positive : Bool) (s : Nat) (e : Int) (r : UInt64) (hs1 : 1 ≤ s)
-    (hs : s < 2 ^ 64) (he1 : -308 ≤ e) (he2 : e ≤ 308)
-    (hnorm : e < 0 → 10 ^ e.natAbs ≤ s * 2 ^ 1021)
+/-- **C08, 5 ulp at `f64_from_parts`** — every `u64` significand, every exponent, normal and subnormal
+    results: an accepted result is within 5 ulp of `significand · 10^exponent`, the ulp being that of the
+    correctly rounded value (`Spec.Ieee.withinUlps`; in the subnormal range the fixed `2^-1074`). The proof
+    (`Proofs.FloatQ.parts_near`) shows `|result − x| ≤ 4.001·2^-53·x + 0.56·2^-1074` on every path of the loop:
+    `significand as f64`, the table entry and the operation for `|exponent| ≤ 308`; two more roundings for
+    the `f /= 1e308` step below `-308` (where an inexact second table entry only occurs for values below
+    `2^-1026`, so its error is absorbed by the absolute term); `±0` for `exponent < -616`. -/
+theorem c08_within_5ulp_parts (positive : Bool) (s : Nat) (e : Int) (r : UInt64) (hs : s < 2 ^ 64)
     (h : f64FromParts positive s e = some r) :
-    withinUlps 5 (!positive) (scale10 s e).1 (scale10 s e).2 r = true := by
-  by_cases hpos : e ≥ 0
-  · have hsc : scale10 s e = (s * 10 ^ e.natAbs, 1) := by
-      unfold scale10; rw [if_pos hpos]
-      have : e.toNat = e.natAbs := by omega
-      rw [this]
-    rw [hsc]
-    exact mul_within5 positive s e r hs1 hs hpos he2 h
-  · have hsc : scale10 s e = (s, 10 ^ e.natAbs) := by
-      unfold scale10; rw [if_neg hpos]
-      have : (-e).toNat = e.natAbs := by omega
-      rw [this]
-    rw [hsc]
-    exact div_within5 positive s e r hs1 hs he1 (by omega) (hnorm (by omega)) h
+    withinUlps 5 (!positive) (scale10 s e).1 (scale10 s e).2 r = true :=
+  SJ.Proofs.FloatQ.f64FromParts_within5 positive s e r hs h
 
-/-- `12345678901234567890e-300` (20 digits, division by `1e300`): hypotheses met, result within 5 ulp -/
-example : (10 : Nat) ^ 300 ≤ 12345678901234567890 * 2 ^ 1021 := by decide +kernel
+/-- **C08, "otherwise within 5 units in the last place" — every literal.** Whatever a grammatical literal is
+    deserialised to (not rejected) is finite, carries the literal's sign and lies within 5 ulp of the
+    literal's exact value, where the ulp is that of the correctly rounded exact value (`2^-1074` through the
+    subnormals; the ulp of `f64::MAX` where the correctly rounded value would overflow). Covers the integer
+    path (one correctly rounded cast), every `f64_from_parts` path, digits dropped after `u64` overflow
+    (`< 10^-18` relative, the proof has `4.02·2^-53` relative plus `0.56·2^-1074` in total) and exponents
+    beyond `i32` (`±0` for a value below `10^-(2^30)`). -/
+theorem c08_within_5ulp (l : NumLit) (hwf : l.WF = true) (hlen : l.digits.length < 2 ^ 30)
+    (r : UInt64) (h : floatOfLiteral l = some r) :
+    withinUlps 5 l.neg l.exact.1 l.exact.2 r = true :=
+  SJ.Proofs.FloatQ.floatOfLiteral_within5 l hwf hlen r h
+
+/-- `12345678901234567890e-300` (20 digits, division by `1e300`) -/
 example : ∃ r, f64FromParts true 12345678901234567890 (-300) = some r ∧
     withinUlps 5 false 12345678901234567890 (10 ^ 300) r = true :=
   ⟨0x059caf4b164e4802, by decide +kernel⟩
+/-- `12345678901234567890123e-330`: 23 digits (3 dropped), exponent `-327` after the digit collection
+    (`/ 1e308`, then `/ 1e19`), subnormal result `≈ 1.2345678901234567e-308` -/
+def exSub : NumLit := ⟨false, [0x31, 0x32, 0x33, 0x34, 0x35, 0x36, 0x37, 0x38, 0x39, 0x30, 0x31, 0x32, 0x33, 0x34,
+  0x35, 0x36, 0x37, 0x38, 0x39, 0x30, 0x31, 0x32, 0x33], [], true, [0x33, 0x33, 0x30]⟩
+example : exSub.WF = true ∧ exSub.digits.length < 2 ^ 30 := by decide
+example : partsOfLiteral exSub = .parts true 12345678901234567890 (-327) ∧
+    floatOfLiteral exSub = some 0x0008e0a3a2bc301f ∧
+    withinUlps 5 false exSub.exact.1 exSub.exact.2 0x0008e0a3a2bc301f = true := by decide +kernel
+/-- `18446744073709551616.5`: the integer part overflows `u64` by one, yet the fraction digit is appended:
+    `f64_from_parts(_, 18446744073709551615, 0)` -/
+example : partsOfLiteral ⟨false, [0x31, 0x38, 0x34, 0x34, 0x36, 0x37, 0x34, 0x34, 0x30, 0x37, 0x33, 0x37, 0x30,
+    0x39, 0x35, 0x35, 0x31, 0x36, 0x31, 0x36], [0x35], false, []⟩ = .parts true 18446744073709551615 0 := by
+  decide +kernel
+/-- `25e-321` (subnormal) -/
+example : floatOfLiteral ⟨false, [0x32, 0x35], [], true, [0x33, 0x32, 0x31]⟩ = some 0x13c4 ∧
+    withinUlps 5 false 25 (10 ^ 321) 0x13c4 = true := by decide +kernel
 
 end SJ.Props.C08
